@@ -248,11 +248,11 @@ def check_epos6_native(p, profile='debug'):
 def check(run):
     funcs, info = engine.load_mir('ibig')
     run.mir_info.append(info)
-    space_new(run, funcs)
-    get_cid(run, funcs)
-    r_ring(run, funcs)
-    cell_bounds(run, funcs)
-    epos6_extension(run, funcs, 1 if run.tier == 'quick' else 2)
+    run.guard(space_new, funcs)
+    run.guard(get_cid, funcs)
+    run.guard(r_ring, funcs)
+    run.guard(cell_bounds, funcs)
+    run.guard(epos6_extension, funcs, 1 if run.tier == 'quick' else 2)
     run.assume('the kNN ring loop with its heap, Welzl recursion/minimality and Epos6 extremal-point selection are not encoded')
     run.assume('f64 read as exact reals; f64::INFINITY read as a symbolic bound larger than 1e9 with |inputs| <= 1e6')
     return run.finish(LEVEL, EXPLANATION, trusted=['rustc -Zunpretty=mir', 'z3 5.1.0 / 4.8.12, cvc5 1.0.3', 'glam / std models of mirsym'])
